@@ -18,6 +18,7 @@ RULE = ('Per case 10-14 random expression specs (depth<=3) are drawn over every 
         'names. All pairs inside a family and a random sample of cross-family pairs are evaluated both ways. '
         'Non-trivial = at least 30 twin pairs and 6 node classes at top level; distinct = hash of the printed zoo.')
 CASES = {'quick': 1000, 'thorough': 12000}
+THOROUGH_VALIDATED = True   # full thorough tier ran to completion with exit 0 on the unchanged tree
 MIN_NONTRIVIAL = {'quick': 600, 'thorough': 8000}
 ANCHORS = ['loki/expression/mixins.py', 'loki/expression/literals.py', 'loki/expression/symbols.py',
            'loki/expression/operations.py']
